@@ -187,6 +187,7 @@ def _spawn_join_in(fx, f, obs, covered):
         counters[origin] = n + 1
         key = mkkey("R-THREAD", origin, SPAWN, n, "joined")
         tainted, via = taint_from(f, [hl])
+        via = via or how.startswith("closure")      # handles made per item live in a collection/iterator
         joins = [bi for bi, t in q.calls_to(f, JOIN) if op_local(t["args"][0]) in tainted]
         # a consuming call whose closure joins each item it is given
         for bi, t in f.calls():
